@@ -69,6 +69,34 @@ func runC08(cfg *config) *Report {
 			continue
 		}
 		note := "text"
+		if i%8 == 4 {
+			// records 27 / 34 shorter than 80 bytes (image reference key shorter than 34 characters)
+			for _, cl := range f.CashLetters {
+				for _, b := range cl.Bundles {
+					for _, cd := range b.Checks {
+						if len(cd.CheckDetailAddendumB) == 0 {
+							ab := baseCheckDetailAddendumB()
+							cd.AddCheckDetailAddendumB(ab)
+							cd.AddendumCount++
+						}
+						for j := range cd.CheckDetailAddendumB {
+							key := r.asciiStr(r.Intn(30), alnumChars)
+							cd.CheckDetailAddendumB[j].ImageReferenceKey = key
+							cd.CheckDetailAddendumB[j].LengthImageReferenceKey = fmt.Sprintf("%04d", len(key))
+							note = "short-record"
+						}
+					}
+					for _, rd := range b.Returns {
+						for j := range rd.ReturnDetailAddendumC {
+							key := r.asciiStr(r.Intn(30), alnumChars)
+							rd.ReturnDetailAddendumC[j].ImageReferenceKey = key
+							rd.ReturnDetailAddendumC[j].LengthImageReferenceKey = fmt.Sprintf("%04d", len(key))
+							note = "short-record"
+						}
+					}
+				}
+			}
+		}
 		switch i % 4 {
 		case 1: // image supplied as base64 text
 			for _, cl := range f.CashLetters {
